@@ -570,6 +570,9 @@ def units(tier, seed):
             out.append(["enum1", uname, typed])
             for shard in range(4 if tier == "thorough" else 1):
                 out.append(["enum2", uname, typed, shard, 4 if tier == "thorough" else 1])
+    out.append(["keyfault", "tuple"])
+    out.append(["keyfault", "tupleint"])
+    out.append(["slice_chain"])
     for i in range(b["hyp_units"]):
         out.append(["hyp", i])
     if tier == "thorough":
@@ -662,12 +665,109 @@ def run_unit(ctx, unit):
             b["examples"],
             ctx.seed * 1000 + unit[1],
         )
+    elif kind == "keyfault":
+        run_keyfault(ctx, unit[1], b)
+    elif kind == "slice_chain":
+        run_slice_chain(ctx, b)
     elif kind == "fuzz":
         from vf.fuzz import common
 
         common.run_fuzz_unit(ctx, "c13", unit[1], decode_bytes, run_case, runs=60000)
     else:
         raise AssertionError(unit)
+
+
+class KeyFault(Exception):
+    pass
+
+
+class FaultyKey:
+    """The user's key function, failing on its n-th call (None: never)."""
+
+    def __init__(self, fn):
+        self.fn, self.calls, self.fail_at = fn, 0, None
+
+    def __call__(self, item):
+        self.calls += 1
+        if self.fail_at is not None and self.calls == self.fail_at:
+            raise KeyFault(f"key function failed on call {self.calls}")
+        return self.fn(item)
+
+
+def keyfault_case(ctx, case, before=None):
+    KL = env()["KeyedList"]
+    u = universes(case["nkeys"])[case["universe"]]
+    init, op, n = case["init"], case["ops"][0], case["fault"]
+    kf = FaultyKey(u.keyfn())
+    real = KL([u.item(e) for e in init], key=kf)
+    if before is None:
+        before = observe(u, real)
+    kf.calls, kf.fail_at = 0, n
+    try:
+        real_apply(u, real, op)
+        raised = False
+    except KeyFault:
+        raised = True
+    except (KeyError, ValueError, IndexError, TypeError):
+        raised = False  # the operation's own refusal came first
+    kf.fail_at = None
+    if raised:
+        try:
+            after = observe(u, real)
+        except Exception as e:  # an incoherent container may not even be observable
+            after = {"unobservable": repr(e)}
+        if after != before:
+            diff = [k for k in before if after.get(k) != before[k]] if "unobservable" not in after else ["unobservable"]
+            ctx.fail(f"keyfault:{op[0]}:changed_on_raise", case, f"{op} with the key function failing on its call #{n}: raised, but the container changed in {diff}: {after if 'unobservable' in after else ''}")
+            return False
+        ctx.count("keyfault:raised_unchanged")
+    ctx.case(case, raised)
+    return True
+
+
+def run_keyfault(ctx, uname, b):
+    """An operation that raises leaves the container exactly as it was - also when what raises is the user's key function,
+    at any of its invocations inside the operation (every write op from every container of <= 2 items)."""
+    KL = env()["KeyedList"]
+    u = universes(b["nkeys"])[uname]
+    for init in containers(u, 2):
+        for op in all_ops(u, False, len(init), small=True):
+            if op[0] not in WRITE_OPS or op[0] in ("setitem_slice", "delitem_slice"):
+                continue
+            case = {"universe": uname, "nkeys": b["nkeys"], "typed": False, "init": init, "ops": [op], "keyfault": True}
+            kf = FaultyKey(u.keyfn())
+            real = KL([u.item(e) for e in init], key=kf)
+            before = observe(u, real)
+            kf.calls = 0
+            try:
+                real_apply(u, real, op)
+            except (KeyError, ValueError, IndexError, TypeError):
+                pass
+            total = kf.calls
+            for n in range(1, total + 1):
+                if not keyfault_case(ctx, dict(case, fault=n), before):
+                    return
+    ctx.count("keyfault_units_completed")
+
+
+def run_slice_chain(ctx, b):
+    """Index and slice reads, repeated: a long chain of slice reads keeps working (and keeps the key function)."""
+    for uname, u in universes(b["nkeys"]).items():
+        real, items = build(u, False, [e for e in u.all_encs()][:1] + [e for e in u.all_encs() if u.key_of_enc(e) != u.key_of_enc(u.all_encs()[0])][:1])
+        case = {"universe": uname, "nkeys": b["nkeys"], "typed": False, "init": [], "ops": [], "slice_chain": 1500}
+        cur = real
+        try:
+            for _ in range(1500):
+                cur = cur[:]
+            obs = observe(u, cur)
+        except RecursionError as e:
+            ctx.fail("slice_chain:recursion", case, f"l = l[:] repeated 1500 times, then reading: {e!r}")
+            return
+        if obs != observe(u, real):
+            ctx.fail("slice_chain:differs", case, "the 1500th slice copy differs from the original container")
+            return
+        ctx.case(case, True)
+    ctx.count("slice_chain_completed")
 
 
 def coverage_extra(tier, counters):
@@ -735,4 +835,9 @@ def decode_bytes(data: bytes):
 
 
 def replay(ctx, case):
-    run_case(ctx, case)
+    if case.get("keyfault"):
+        keyfault_case(ctx, case)
+    elif case.get("slice_chain"):
+        run_slice_chain(ctx, BOUNDS["quick"])
+    else:
+        run_case(ctx, case)
